@@ -607,6 +607,39 @@ def stream_tag(ctx, drv, orc, n):
             ctx.notes.append({"source": raw, "impl": out, "model": {"labels": model_labels, "taxa": model_taxa}})
 
 
+def check_meta_ast_hypotheses(ctx, names):
+    """The three oracle hypotheses of Props/C14.lean `C14_meta_ast`, evaluated with the real `regex` engine on the real
+    taxonomy.tsv for every error name met: the label does not look like a taxon; the row
+    (meta/ast/\\1, ast_construction:(.+)) matches it entirely and expands to meta/ast/<E>; no other row applies."""
+    import regex
+    from paroxython.map_taxonomy import is_literal
+    text = (core.REPO / "paroxython" / "resources" / "taxonomy.tsv").read_text().partition("-- EOF")[0].strip()
+    rows = [tuple(line.strip().split(maxsplit=2)[:2]) for line in text.split("\n")[1:]]
+    ast_row = ("meta/ast/\\1", "ast_construction:(.+)")
+    looks = regex.compile(r"^\w+/.+$").match
+    bad = []
+    for e in sorted(names):
+        label = f"ast_construction:{e}"
+        if looks(label):
+            bad.append((e, "looks like a taxon"))
+        applied = []
+        for (t, pat) in rows:
+            if is_literal(pat):
+                if pat == label:
+                    applied.append(((t, pat), t))
+            else:
+                m = regex.fullmatch(pat, label)
+                if m:
+                    applied.append(((t, pat), m.expand(t)))
+        if applied != [(ast_row, f"meta/ast/{e}")]:
+            bad.append((e, applied[:3]))
+        ctx.count("meta-ast-oracle-hypotheses", e, nontrivial=True)
+    if bad:
+        ctx.broken.append("hyp:C14_meta_ast")
+        ctx.notes.append({"C14_meta_ast hypotheses fail for the real regex engine / table": bad})
+    ctx.cov["meta_ast_error_names"] = sorted(names)
+
+
 def stream_classes(ctx, n):
     """Implementation-only: exception classes of ast.parse / Cleanup('full').run on the malformed stream."""
     from paroxython.preprocess_source import Cleanup
@@ -652,6 +685,9 @@ def run(ctx):
                                               "model": "ParseCaught is an assumption", "spec": "SyntaxError/ValueError"}})
         stream_tag(ctx, drv, orc, 50 if quick else 400)
         stream_dirs(ctx, drv, orc, 120 if quick else 1200)
+        names = {"EmptyProgramError", "SyntaxError", "IndentationError", "TabError", "ValueError"}
+        names |= {k.split(".")[-1] for k in ctx.cov["distribution"] if ".parse." in k and k.split(".")[-1][:1].isupper()}
+        check_meta_ast_hypotheses(ctx, names)
     finally:
         drv.close()
     ctx.cov["proved"] = [t for t, ax in ctx.cov.get("theorems", {}).items() if ax != "DOES-NOT-CHECK"]
